@@ -7,18 +7,28 @@ import writemodel as wm
 PROP = "C11"
 MODEL_TARGETS = ["Corr/WriteShow.vo", "Proofs/SecondCycleCheck.vo"]
 THEOREMS = ["C11_second_write_same_text_partial", "C11_second_write_same_text_nowrap", "C11_standardize_idem", "C11_values_fixed", "C11_refreshed_is_text", "C11_refreshed_shapes", "C11_refresh_idem_values", "C11_data_tokens_fixed", "C11_cell_text_fixed", "C11_column_text_cycles", "C11_iter", "C11_iter_from_fix", "C11_reread_fixed_point_partial",
-            "C11_read_canonical", "C11_canonical_determined", "C11_second_header", "C11_stable_itemb_ok", "C11_refresh_not_triggered", "C11_back_okb_of_Hfix", "C11_second_data_tokens", "C11_second_data_lines", "C11_second_cycle", "C11_cycle_fixed", "C11_cycles_same_text", "C11_cycles_iter"]
+            "C11_read_canonical", "C11_canonical_determined", "C11_second_header", "C11_stable_itemb_ok", "C11_refresh_not_triggered", "C11_back_okb_of_Hfix", "C11_second_data_tokens", "C11_second_data_lines", "C11_second_cycle", "C11_cycle_fixed", "C11_cycles_same_text", "C11_cycles_iter",
+            "C11_second_header_same_lines", "C11_second_cycle_content_partial", "C11_content_okb_ok"]
 ASSUMPTIONS = [
     "oracle: float(fmt % x) is a fixed point of x -> float(fmt % x) (printing a printed value again gives the same text)",
-    "second cycle (write of the object read back = the same text, any number of cycles) proved on the decidable domain cycle_hypsb (first written form already in normal form); outside it (text changes once, content numerically the same) and for the closure of the domain the chain correspondence is the only evidence",
+    "second cycle: same text for any number of cycles proved on the decidable domain cycle_hypsb (first written form in normal form); outside it content equality (numeric values through the numeq oracle, decidable per file) proved on cycle_whypsb under the premise that the second written form satisfies the C01/C03 file domain (closure not proved); both domains are evaluated on every chain and checked against lasio",
 ]
 
-# the domain of C11_second_cycle evaluated by the model on a chain case ("D" = in the domain: the theorem says the second
-# write returns the text of the first)
+# the domains of C11_second_cycle ("D": the theorem says the second write returns the text of the first) and of
+# C11_second_cycle_content_partial ("C": same data lines, content equal up to numeric equality) evaluated by the model on a
+# chain case (Proofs/SecondCycleCheck.v)
 RUN_DOMAIN = """
 Require Import SecondCycleCheck.
 Definition run := domain_flag.
 """
+
+
+def data_part(text):
+    """the lines after the last ~A line"""
+    lines = text.split("\n")
+    k = max((i for i, l in enumerate(lines) if l.strip().upper().startswith("~A")), default=-1)
+    return lines[k + 1:]
+
 
 WOPTS = [dict(), dict(version=1.2), dict(version=2), dict(wrap=True), dict(version=1.2, wrap=True, data_width=40),
          dict(fmt="%.3f"), dict(len_numeric_field=-1, spacer="\t"), dict(mnemonics_header=True), dict(fmt="%.6e", len_numeric_field=16),
@@ -85,7 +95,7 @@ def irregular_base(rng):
 def run(ctx):
     res = lib.Result()
     rng = ctx.rng
-    cases, meta, kinds, same_text = [], [], set(), []
+    cases, meta, kinds, same_text, same_data = [], [], set(), [], []
     hist = {"corpus": 0, "generated": 0, "not_accepted": 0}
     bs = bases(ctx)
     per = 6 if ctx.thorough else 1
@@ -103,6 +113,7 @@ def run(ctx):
             c, r = wm.coq_case(text, ops)
             cases.append(c)
             same_text.append(len(r["texts"]) >= 2 and r["texts"][0] == r["texts"][1])
+            same_data.append(len(r["texts"]) >= 2 and data_part(r["texts"][0]) == data_part(r["texts"][1]))
             meta.append((name, text, ops))
             kinds.add((name, tuple(sorted((a, str(b)) for a, b in wkw.items()))))
             hist["corpus" if name.startswith("corpus") else "generated"] += 1
@@ -129,13 +140,25 @@ def run(ctx):
         if err2:
             res.corr_error = (res.corr_error or "") + " domain: " + err2
         else:
-            out_dom = set(out_dom)
-            hist["second_cycle_domain"] = len(cases) - len(out_dom)
-            hist["second_cycle_same_text"] = sum(1 for x in same_text if x)
+            out_dom = sorted(set(out_dom))
+            out_c, err3 = lib.run_coq_cases("c11domc", [], RUN_DOMAIN, [(cases[i][0], "C") for i in out_dom], shard=6)
+            if err3:
+                res.corr_error = (res.corr_error or "") + " domain(content): " + err3
+                out_c = list(range(len(out_dom)))
+            neither = set(out_dom[j] for j in out_c)
+            in_c = [i for i in out_dom if i not in neither]
+            hist["second_cycle_domain_same_text"] = len(cases) - len(out_dom)
+            hist["second_cycle_domain_content"] = len(in_c)
+            hist["second_cycle_outside_both"] = len(neither)
+            hist["lasio_second_text_same"] = sum(1 for x in same_text if x)
             for i in range(len(cases)):
                 if i not in out_dom and not same_text[i]:
                     res.mismatches.append({"base": meta[i][0], "ops": repr(meta[i][2]), "text": meta[i][1],
                                            "what": "in the domain of C11_second_cycle but lasio's second text differs"})
+            for i in in_c:
+                if not same_data[i]:
+                    res.mismatches.append({"base": meta[i][0], "ops": repr(meta[i][2]), "text": meta[i][1],
+                                           "what": "in the domain of C11_second_cycle_content_partial but lasio's second data lines differ"})
     else:
         res.corr_error = "model not built"
     res.cases = len(cases) + n_explicit
